@@ -256,8 +256,7 @@ func New(rules Rules) (*StatefulDefinition, error) {
 				re  *regexp.Regexp
 				err error
 			)
-			var match = backrefReplace.FindStringSubmatch(rule.Pattern)
-			if match == nil || len(match[1])%2 == 0 {
+			if !hasBackref(rule.Pattern) {
 				re, err = regexp.Compile(pattern)
 				if err != nil {
 					return nil, fmt.Errorf("lexer: %s.%d: %s", key, i, err)
@@ -470,6 +469,16 @@ func backrefKey(input string, groups []string) string {
 	return key.String()
 }
 
+// hasBackref reports whether pattern contains a \N back-reference (an odd number of backslashes followed by a digit).
+func hasBackref(pattern string) bool {
+	for _, match := range backrefReplace.FindAllStringSubmatch(pattern, -1) {
+		if len(match[1])%2 == 1 {
+			return true
+		}
+	}
+	return false
+}
+
 // BackrefRegex returns a compiled regular expression with backreferences replaced by groups.
 func BackrefRegex(backrefCache *sync.Map, input string, groups []string) (*regexp.Regexp, error) {
 	key := backrefKey(input, groups)
@@ -484,6 +493,10 @@ func BackrefRegex(backrefCache *sync.Map, input string, groups []string) (*regex
 	)
 	pattern := backrefReplace.ReplaceAllStringFunc(input, func(s string) string {
 		var rematch = backrefReplace.FindStringSubmatch(s)
+		if len(rematch[1])%2 == 0 {
+			// An escaped backslash followed by a digit, not a back-reference.
+			return s
+		}
 		n, nerr := strconv.ParseInt(rematch[2], 10, 64)
 		if nerr != nil {
 			err = nerr
